@@ -1346,3 +1346,64 @@ Lemma emt_variable_no_overlap_thm :
     ForallOrdPairs (fun a b => r_end (st_first st0) a <= r_begin (st_first st0) b /\
                                r_end (st_first st0) a <= r_frame b - st_first st0) (concat (snd r)).
 Proof. intros kink c st0 segs r Hc Hk HF Hg. exact (variable_no_overlap_proof kink c Hc Hk st0 HF segs Hg r). Qed.
+
+(* ---------- the model's output passes the observable checker ---------- *)
+Lemma proj_eqb_eq a b : proj_eqb a b = true <-> a = b.
+Proof.
+  destruct a as [[f1 p1] d1], b as [[f2 p2] d2]. unfold proj_eqb. rewrite !andb_true_iff, !Z.eqb_eq, zlist_eqb_eq.
+  split; [intros [[-> ->] ->]; reflexivity|intros E; inversion E; auto].
+Qed.
+
+Lemma pairwise_ok_cons2 c F0 a b rest :
+  pairwise_ok c F0 (a :: b :: rest) =
+  (r_frame a <? r_frame b)
+  && (negb (c_mode c =? 1) || ((r_end F0 a <=? r_begin F0 b) && (r_end F0 a <=? r_frame b - F0)))
+  && pairwise_ok c F0 (b :: rest).
+Proof. reflexivity. Qed.
+
+Lemma pairwise_ok_of_FOP c F0 rs :
+  ForallOrdPairs (fun a b => r_frame a < r_frame b) rs ->
+  (c_mode c = 1 -> ForallOrdPairs (fun a b => r_end F0 a <= r_begin F0 b /\ r_end F0 a <= r_frame b - F0) rs) ->
+  pairwise_ok c F0 rs = true.
+Proof.
+  induction rs as [|a [|b rest] IH]; intros H1 H2; [reflexivity|reflexivity|].
+  rewrite pairwise_ok_cons2. inversion H1 as [|? ? Ha Hr]; subst. inversion Ha as [|? ? Hab _]; subst.
+  rewrite IH; [|exact Hr|intros M; specialize (H2 M); inversion H2; assumption].
+  destruct (c_mode c =? 1) eqn:M; cbn [negb orb andb].
+  - specialize (H2 ltac:(lia)). inversion H2 as [|? ? Ha2 _]; subst. inversion Ha2 as [|? ? [X Y] _]; subst. lia.
+  - lia.
+Qed.
+
+Lemma seq_ok_model kink c st0 segs r :
+  cfg_ok c -> kink_ok kink -> 0 <= st_first st0 -> contiguous (st_endframe st0) segs ->
+  run kink c st0 emt_reset segs = EOk r ->
+  seq_ok c (st_data st0 ++ seg_concat segs) (st_first st0) (concat (snd r)) = true.
+Proof.
+  intros Hc Hk HF Hg Hr. unfold seq_ok. rewrite !andb_true_iff. split; [split|].
+  - destruct (emt_never_out_of_range_thm kink c st0 segs Hc Hk HF Hg) as (r' & Hr' & Hall).
+    assert (r' = r) by congruence. subst r'. apply forallb_forall. rewrite Forall_forall in Hall. exact Hall.
+  - apply forallb_forall. intros x Hx. unfold rec_full_length. destruct (c_mode c =? 1) eqn:M; [reflexivity|].
+    pose proof (emt_fixed_full_length_thm kink c st0 segs r Hc Hk HF Hg Hr ltac:(lia)) as Hall.
+    rewrite Forall_forall in Hall. specialize (Hall x Hx). cbn [orb]. lia.
+  - apply pairwise_ok_of_FOP.
+    + exact (emt_increasing_thm kink c st0 segs r Hc Hk HF Hg Hr).
+    + exact (emt_variable_no_overlap_thm kink c st0 segs r Hc Hk HF Hg Hr).
+Qed.
+
+Lemma emt_model_passes_checker_thm :
+  forall (kink : list Z -> Z) (c : cfg) (st0 : stream) (segsA segsB : list segment),
+    cfg_ok c -> kink_ok kink -> 0 <= st_first st0 ->
+    segsA <> [] -> segsB <> [] ->
+    contiguous (st_endframe st0) segsA -> contiguous (st_endframe st0) segsB ->
+    seg_concat segsA = seg_concat segsB ->
+    exists ra rb,
+      run kink c st0 emt_reset segsA = EOk ra /\ run kink c st0 emt_reset segsB = EOk rb /\
+      C08_check c (st_data st0 ++ seg_concat segsA) (st_first st0) (ORecs (snd ra)) (ORecs (snd rb)) = true.
+Proof.
+  intros kink c st0 sa sb Hc Hk HF NA NB CA CB Heq.
+  destruct (emt_block_independent_thm kink c st0 sa sb Hc Hk HF NA NB CA CB Heq) as (ra & rb & RA & RB & E).
+  exists ra, rb. split; [exact RA|]. split; [exact RB|]. unfold C08_check. rewrite !andb_true_iff. split; [split|].
+  - apply (list_eqb_eq proj_eqb proj_eqb_eq). exact E.
+  - exact (seq_ok_model kink c st0 sa ra Hc Hk HF CA RA).
+  - rewrite Heq. exact (seq_ok_model kink c st0 sb rb Hc Hk HF CB RB).
+Qed.
